@@ -359,6 +359,11 @@ structure Promotion where
   batch : List Record
   changesCands : Bool    -- the block changes a candidate: blockCommit ends with Context.Flush
 
+/-- the durable steps of one promotion, in the order the crash points below assume (`appending` … `committed _
+    false _`: only the batch; `committed _ true false`: batch and pointer; `committed _ true true`: all three).
+    Compared on every run with the order OBSERVED on the real code (op `steps`, inotify on the data directory). -/
+def commitSteps : List String := ["wal", "pointer", "context"]
+
 /-- where the process dies during `blockCommit` of a promotion -/
 inductive CrashPoint where
   | before                          -- before PutBatch touches anything
